@@ -101,6 +101,9 @@ def write_evidence(pid, tier, level, cx, wall, violations, db_info, mod, extra=N
         "trusted_base": ["clang 14 parser/Sema/CFG", "tool/celerfacts.cc",
                          "lib/*.py, rules/%s.py" % pid, "python3 integers"],
         "not_decided": getattr(mod, "NOT_DECIDED", ""),
+        "obligation_list": [{"rule": o["rule"], "instance": o["instance"][:160],
+                             "where": o["where"], "holds": o["ok"]} for o in cx.obs[:600]],
+        "units": sorted(getattr(cx, "units", []))[:60],
     }
     if extra:
         cov.update(extra)
@@ -154,6 +157,8 @@ def main(argv):
             wit = {os.path.join(VERIF, w): os.path.join(facts.REPO, like)
                    for w, like in getattr(mod, "WITNESS", {}).items()}
             db = facts.extract(units, astfuncs.regex(), wit)
+            cx.units = [u.replace(facts.REPO + "/", "") for u in db.units] if len(db.units) <= 60 \
+                else ["(all %d units of the compile database)" % len(db.units)]
             db_info = {"units_parsed": len(db.units), "functions": db.nfuncs,
                        "records": len(db.records), "compile_db": db.route,
                        "tree_hash": facts.tree_hash(),
